@@ -44,7 +44,7 @@ pub proof fn lemma_lookup_is(ts: Seq<(TerminalID, ScannerModeID)>, tt: usize, r:
 }
 
 pub open spec fn mode_wf(m: CompiledScannerMode, nmodes: int) -> bool {
-    &&& wf(m.dfa)
+    &&& wf(core(m.dfa))
     &&& sorted_tr(m.transitions@)
     &&& forall|i: int| 0 <= i < m.transitions@.len() ==> (#[trigger] m.transitions@[i]).1.0 < nmodes
 }
@@ -62,11 +62,7 @@ pub open spec fn mode_ok<M: Fn(CharClassID, char) -> bool>(s: ScannerImpl<M>) ->
 }
 
 pub open spec fn dfa_core_eq(a: CompiledDfa, b: CompiledDfa) -> bool {
-    &&& a.states == b.states
-    &&& a.end_states == b.end_states
-    &&& a.terminal_ids == b.terminal_ids
-    &&& a.lookaheads == b.lookaheads
-    &&& a.patterns == b.patterns
+    core(a) == core(b)
 }
 
 /// nothing but the scratch buffers of the automata (and possibly the current mode) differs
@@ -81,8 +77,8 @@ pub open spec fn same_config<M: Fn(CharClassID, char) -> bool>(a: ScannerImpl<M>
         }
 }
 
-pub open spec fn cur_dfa<M: Fn(CharClassID, char) -> bool>(s: ScannerImpl<M>) -> CompiledDfa {
-    s.scanner_modes@[s.current_mode as int].dfa
+pub open spec fn cur_dfa<M: Fn(CharClassID, char) -> bool>(s: ScannerImpl<M>) -> DfaCore {
+    core(s.scanner_modes@[s.current_mode as int].dfa)
 }
 
 pub open spec fn cur_cls<M: Fn(CharClassID, char) -> bool>(s: ScannerImpl<M>) -> Cls {
